@@ -24,10 +24,13 @@ type c16Env struct {
 	isRemoveAll func(ssa.Instruction) bool // TaskContainer.RemoveAll
 	isExecute   func(ssa.Instruction) bool // TaskContainer.Execute
 	async       func(ssa.CallInstruction) bool
+	flusher     *ssa.Function // the function that receives from pe.commander in a select (the flusher's loop)
+	flSel       *ssa.Select
 }
 
 // c16Extra: rules added for missed seeded changes (detection round 8).
 func c16Extra(r *core.Run, e *c16Env) {
+	defer c16Round9(r, e)
 	p := e.p
 
 	// ---------- D4: every size trigger is a non-strict threshold ----------
